@@ -222,7 +222,10 @@ class ASTPrinter:
         return (
             _block_string(value, self.indent)
             if node.block
-            else json.dumps(value)
+            # Keep non ASCII characters as is: JSON escapes characters outside
+            # the BMP as two \\uXXXX surrogates which GraphQL reads as two
+            # characters.
+            else json.dumps(value, ensure_ascii=False)
         )
 
     def print_list_value(self, node: _ast.ListValue) -> str:
